@@ -1336,17 +1336,33 @@ where
             return Ok(())
         }
 
-        let _flag = ResetableFlag { flag: &self.fsync_in_progress };
+        loop {
+            {
+                let _flag = ResetableFlag { flag: &self.fsync_in_progress };
 
-        let safe = self.safe.read().await;
-        if let Some(ablob) = &safe.active_blob {
-            let ablob = ablob.read().await;
-            if !self.too_many_dirty_bytes(ablob.file_dirty_bytes()) {
+                let safe = self.safe.read().await;
+                let need_sync = match &safe.active_blob {
+                    Some(ablob) => self.too_many_dirty_bytes(ablob.read().await.file_dirty_bytes()),
+                    None => false,
+                };
+                if need_sync {
+                    safe.fsyncdata().await?;
+                }
+            }
+
+            // Writes that completed while the flag was set did not request a sync (see `should_try_fsync`),
+            // and their bytes are not covered by the sync above. The flag is reset now, so later writes will
+            // request a sync themselves; bytes written before that moment are already visible here
+            let still_dirty = match &self.safe.read().await.active_blob {
+                Some(ablob) => self.too_many_dirty_bytes(ablob.read().await.file_dirty_bytes()),
+                None => false,
+            };
+            if !still_dirty
+                || self.fsync_in_progress.compare_exchange(false, true, Ordering::AcqRel, Ordering::Acquire).is_err()
+            {
                 return Ok(());
             }
         }
-
-        safe.fsyncdata().await
     }
 
     /// Dumps indexes on old blobs. This method is slow, so it is better to run it in background
